@@ -6,6 +6,7 @@ package main
 
 import (
 	"bytes"
+	"context"
 	"encoding/json"
 	"fmt"
 	"io"
@@ -195,9 +196,9 @@ func runGated(w *caseWriter, d concDesc) {
 
 type c12Stats struct {
 	cases, goroutines, races, results int
-	modes, procs            map[string]int
-	distinct                map[string]struct{}
-	samples                 []string
+	modes, procs                      map[string]int
+	distinct                          map[string]struct{}
+	samples                           []string
 }
 
 // packageSignedOp: the packaging with a passphrase-protected key (signatures differ from run to run: only success
@@ -272,10 +273,16 @@ func runC12Group(w *caseWriter, jobs []c12Job, st *c12Stats) {
 			defer os.RemoveAll(tmp)
 			raw, _ := json.Marshal(jobs[i].d)
 			must(os.WriteFile(filepath.Join(tmp, "desc.json"), raw, 0o644))
-			cmd := exec.Command(child, "C12ONE", filepath.Join(tmp, "desc.json"), filepath.Join(tmp, "out.txt"))
+			// packagings that wait for one another for ever are a failure too: the child gets 150 seconds (a case takes less than a minute under the race detector)
+			ctx, cancel := context.WithTimeout(context.Background(), 150*time.Second)
+			defer cancel()
+			cmd := exec.CommandContext(ctx, child, "C12ONE", filepath.Join(tmp, "desc.json"), filepath.Join(tmp, "out.txt"))
 			cmd.Env = append(os.Environ(), "GORACE=log_path="+filepath.Join(tmp, "race")+" halt_on_error=0 exitcode=0")
 			r := &results[i]
 			r.cerr = cmd.Run()
+			if ctx.Err() != nil {
+				r.cerr = fmt.Errorf("no result within 150 seconds - the concurrent packagings did not finish (%v)", r.cerr)
+			}
 			if lines, err := os.ReadFile(filepath.Join(tmp, "out.txt")); err == nil {
 				r.lines = strings.Split(strings.TrimRight(string(lines), "\n"), "\n")
 			}
@@ -362,6 +369,7 @@ func cmdC12(tier string, seed int64, out, statsOut, replay string) {
 	}
 	rng := rand.New(rand.NewSource(seed))
 	g := &pkgGen{rng: rng}
+	manyFiles()
 	nCfg, rounds, procs := 4, 3, []int{2, 16}
 	if tier != "quick" {
 		nCfg, rounds, procs = 16, 8, []int{1, 2, 4, 8, 16}
@@ -392,6 +400,14 @@ func cmdC12(tier string, seed int64, out, statsOut, replay string) {
 			// the format with a shared atomic counter and a parallel compressor, several at once
 			if ci == 0 || tier != "quick" {
 				runC12Case(w, fmt.Sprintf("same-%d-p%d-apk-big", ci, p), concDesc{YAML: docBig, Files: gen.files, Mode: "independent", Formats: []string{"apk", "apk", "apk"}, Procs: p, Rounds: 2, Seed: seed + int64(ci)}, st)
+			}
+			// several packagings of a tree of a few hundred files at once (whatever is rationed per process - open
+			// files, workers - is asked for by all of them together)
+			if ci == 0 {
+				manyCfg := gen.cfg
+				manyCfg.Contents = append(append(files.Contents{}, gen.cfg.Contents...), &files.Content{Source: "many", Destination: "/opt/many", Type: "tree"})
+				runC12Case(w, fmt.Sprintf("many-files-%d-p%d", ci, p), concDesc{YAML: marshalConfig(&manyCfg), Files: gen.files, Mode: "independent",
+					Formats: []string{"archlinux", "archlinux", "archlinux", "deb", "ipk", "archlinux", "deb", "ipk"}, Procs: p, Rounds: 1, Seed: seed + int64(ci)}, st)
 			}
 			f := allFormats[(ci+p)%len(allFormats)]
 			runC12Case(w, fmt.Sprintf("same-%d-p%d-%s", ci, p, f), concDesc{YAML: doc, Files: gen.files, Mode: "independent", Formats: []string{f, f, f, f, f, f}, Procs: p, Rounds: rounds, Seed: seed + int64(ci)}, st)
